@@ -298,6 +298,29 @@ func checkC04(c C04Case, o *Obs) error {
 			return fmt.Errorf("file item %d: %v", i, err)
 		}
 	}
+	// A consumer owns the records it received: modifying them while iterating must not affect
+	// the records that follow.
+	k := 0
+	for b, err := range bed.Reader(bytes.NewReader(file.Bytes())) {
+		if err != nil || k >= len(want) {
+			return fmt.Errorf("second pass: item %d: unexpected item (error %v)", k, err)
+		}
+		if err := sameBED(b, want[k]); err != nil {
+			return fmt.Errorf("after the consumer modified the records it received earlier in the same pass: record %d: %v", k, err)
+		}
+		for j := range b.BlockSizes {
+			b.BlockSizes[j] = -99
+		}
+		for j := range b.BlockStarts {
+			b.BlockStarts[j] = -99
+		}
+		b.BlockSizes, b.BlockStarts = append(b.BlockSizes, 7), append(b.BlockStarts, 7)
+		b.Chrom, b.N = "scribble", 3
+		k++
+	}
+	if k != len(want) {
+		return fmt.Errorf("second pass yields %d records, want %d", k, len(want))
+	}
 	return nil
 }
 
